@@ -166,7 +166,12 @@ func genSeq(rng *hxlib.Rng, next *int, long bool) []int {
 		n = 1 + rng.Intn(40)
 	}
 	rs := make([]int, n)
+	repeat := rng.Intn(3) == 0 // sequences with runs of equal results (the value repeats; the position must still advance)
 	for i := range rs {
+		if repeat && i > 0 && rng.Intn(2) == 0 {
+			rs[i] = rs[i-1]
+			continue
+		}
 		rs[i] = *next
 		*next++
 	}
@@ -234,11 +239,19 @@ func (t *starget) apply(m mocker.ExportedMocker, cf xconfig) {
 			return
 		}
 		if cl != nil && cl.Form == 1 && t.nout == 1 {
-			vs := make([]interface{}, len(rs))
-			for i, r := range rs {
+			// Returns(v1..vk) for a prefix, the rest appended with AndReturn (every second such clause: all in one Returns)
+			k := len(rs)
+			if len(rs) > 2 && rs[0]%2 == 0 {
+				k = 1 + (len(rs)-1)/2
+			}
+			vs := make([]interface{}, k)
+			for i, r := range rs[:k] {
 				vs[i] = r
 			}
 			w = w.Returns(vs...)
+			for _, r := range rs[k:] {
+				w = w.AndReturn(r)
+			}
 			return
 		}
 		for i, r := range rs {
